@@ -15,7 +15,7 @@ BUDGET = {"quick": 50, "thorough": 900}
 RULE = (
     "one consumer (optionally topic-filtered) drains a queue while one producer enqueues distinguishable immediate messages: "
     "queue lengths 1-40 (shorter and longer than the Redis fetch window of 10; window knob 2-3 in part of the runs), 1-3 "
-    "priorities, foreign-topic messages mixed in, producer either finished before the consumer starts or keeping the backlog "
+    "priorities, foreign-topic messages mixed in, messages deferred until an instant already past (ordinary FIFO members), producer either finished before the consumer starts or keeping the backlog "
     "non-empty, some messages rejected and consumed again; in a third of the in-memory/Redis runs another task pauses and "
     "unpauses the consumer 1-3 times while its consume() may be waiting (RabbitMQ: pause bounces deliveries by design, not "
     "asserted). Oracle: for matching messages A, B of equal priority where "
@@ -45,6 +45,9 @@ def gen(rng, broker, tier):
             m["reject"] = rng.random() < 0.7
             if m["reject"]:
                 m["pause_us"] = rng.choice([0, 2000, 30_000, 200_000])
+        if not m.get("past_us") and rng.random() < 0.1:
+            # deferred until an instant which has already passed (no period): immediately deliverable, ordinary FIFO member
+            m["until_past_us"] = rng.choice([1000, 1_000_000, 3_600_000_000])
         msgs.append(m)
     pauses = []
     if rng.random() < 0.35 and broker != "rabbit":
@@ -97,6 +100,8 @@ async def _main(sim, sc, out):
             delay = DelayProperties()
             if m.get("past_us"):
                 delay = DelayProperties(next_execution_time=sim.clock.now() - timedelta(microseconds=m["past_us"]))
+            elif m.get("until_past_us"):
+                delay = DelayProperties(delay_until=sim.clock.now() - timedelta(microseconds=m["until_past_us"]))
             await mb.enqueue(key, f'{{"m":"{m["id"]}"}}', Parameters(timestamp=sim.clock.now(), delay=delay))
             enq_end[m["id"]] = rec._next()
         prod_done[0] = True
